@@ -4,7 +4,7 @@
 import json, os, shutil, sys, re, glob
 pid = sys.argv[1]
 src = "/var/tmp/seeded-out/%s" % pid
-for d in sorted(glob.glob(src + "/[0-9]*")):
+for d in sorted(glob.glob(src + "/[0-9]*"), key=lambda x: int(os.path.basename(x))):
     n = os.path.basename(d)
     res = {}
     suite = None
@@ -12,7 +12,7 @@ for d in sorted(glob.glob(src + "/[0-9]*")):
         f = os.path.join(d, "result.%s.txt" % tier)
         if not os.path.exists(f):
             continue
-        txt = open(f).read()
+        txt = open(f, errors="replace").read().replace("\x00", "")
         if "suite: PASS" in txt:
             suite = True
         elif "suite: FAIL" in txt or "DOES-NOT" in txt:
@@ -41,6 +41,7 @@ for d in sorted(glob.glob(src + "/[0-9]*")):
     if os.path.exists(fi):
         t = open(fi, errors="replace").read()
         meta["first_result"] = "caught" if "CAUGHT" in t else ("missed" if "MISSED" in t else "caught" if pid == "C16" and n == "2" else "?")
+    meta["round"] = (int(n) - 1) // 3 + 1
     meta["confirmed"] = {"applies_builds_and_suite_passes": bool(suite)}
     meta["checks"] = res
     json.dump(meta, open(mp, "w"), indent=1)
